@@ -338,6 +338,30 @@ def _stmts():
     def setop(Q, t, o):
         return Q.from_(t).select(t.a).union(Q.from_(o).select(o.a))
 
+    def setop_orderby_field(Q, t, o):
+        # plain column keys (Field objects and strings) in the set operation's own ORDER BY, plus an expression key
+        return Q.from_(t).select(t.a, t.name).union(Q.from_(o).select(o.a, o.name)).orderby(t.name).orderby("a").orderby(t.a + 1)
+
+    def setop_three_branches(Q, t, o):
+        return Q.from_(o).select(o.a).union_all(Q.from_(t).select(t.a)).intersect(Q.from_(t).select(t.b).where(t.c == 1)).orderby(t.a).limit(5)
+
+    def from_two_sources_then_subquery(Q, t, o):
+        # the replaced table is a FROM source itself and is referenced again by a later derived source and a later set operation
+        sub = Q.from_(t).select(t.k, fn("Sum")(t.v).as_("tot")).groupby(t.k).as_("tot")
+        so = Q.from_(t).select(t.k).union(Q.from_(o).select(o.k)).as_("uq")
+        return Q.from_(t).from_(sub).from_(so).select(t.a, sub.tot, so.k).where(t.k == sub.k)
+
+    def from_subquery_then_table(Q, t, o):
+        sub = Q.from_(t).select(t.k).as_("s1")
+        return Q.from_(sub).from_(o).from_(t).select(sub.k, t.a)
+
+    def update_from_two_sources(Q, t, o):
+        sub = Q.from_(t).select(t.k, t.v).as_("s1")
+        return Q.update(o).from_(t).from_(sub).set(o.a, t.a).where(o.id == sub.k)
+
+    def from_same_table_twice(Q, t, o):
+        return Q.from_(t).from_(o).from_(t).select(t.a, o.b)
+
     def sel_twin_terms(Q, t, o):
         # same-shaped terms over the same column names on two tables (equal hashes without namespaces)
         return (Q.from_(t).join(o).on(t.id == o.id).select(fn("Count")(t.id), fn("Count")(o.id), t.rank + 1, o.rank + 1, t.name, o.name)
@@ -364,7 +388,8 @@ STATEMENTS = ["sel_from", "sel_all_clauses", "sel_join_item", "sel_join_criterio
               "sel_for_update", "insert_values", "insert_select", "insert_into_target", "upsert", "upsert_conflict_where", "update_set",
               "update_set_value_other", "update_join", "delete", "returning", "distinct_on", "prewhere", "rollup", "setop",
               "sel_twin_terms", "sel_twin_terms_where", "sel_subquery_list", "sel_subquery_operands",
-              "join_collate", "join_collate_other", "update_join_collate", "returning_delete", "returning_delete_join", "returning_update", "returning_insert_select", "distinct_on_expr", "analytic_expr_keys"]
+              "setop_orderby_field", "setop_three_branches", "from_two_sources_then_subquery", "from_subquery_then_table", "update_from_two_sources",
+              "from_same_table_twice", "join_collate", "join_collate_other", "update_join_collate", "returning_delete", "returning_delete_join", "returning_update", "returning_insert_select", "distinct_on_expr", "analytic_expr_keys"]
 
 
 def run_stmt(case, mon):
